@@ -259,6 +259,7 @@ class DocGen:
         self.svg_docs = {}        # url -> (Content, [('image', resolved url | None) | ('use', url)])
         self.api_attachments = []
         self.optimize = self.quality = False
+        self.disk_cache = False
         return self
 
     def generate(self):
@@ -276,6 +277,15 @@ class DocGen:
                 self.kinds.add('link')
         for _ in range(rng.choice([0, 1, 2, 3, 4, 6])):
             kind = rng.choice(['img', 'img', 'img', 'embed', 'object', 'background', 'liststyle', 'content', 'borderimage'])
+            if rng.random() < 0.07:
+                # an inline <svg> element: its <image> / <use> elements are fetched when it is painted, relative to the document
+                key = f'inline:{self.n}x{next(self.ids)}'
+                spec = self.svg_document(self.base, depth=1, inline=True)
+                self.svg_docs[key] = self.svg_docs.pop(self.base)
+                self.images.append({'kind': 'inlinesvg', 'layers': None, 'text': None, 'url': None, 'alt': None,
+                                    'orient': 'from-image', 'forced': None, 'svg': spec.content})
+                self.kinds.add('inline-svg')
+                continue
             missing = kind in ('img', 'embed', 'object') and rng.random() < 0.08
             decor = rng.choice(['', '', '', '', '', ' b', '%41', '\u00e9'])
             text, url = self.url('pic', rng.choice(['png', 'jpg', 'svg']), decor=decor)
@@ -301,7 +311,12 @@ class DocGen:
                 orient = 'from-image'   # ::marker / ::before do not inherit image-orientation in WeasyPrint
             if kind in ('img', 'embed', 'object') and rng.random() < 0.15:
                 text = rng.choice([' {} ', '\n{}', '{}\t ', '  {}\n']).format(text)     # HTML: the attribute value is stripped
-            self.images.append({'kind': kind, 'text': None if missing else text, 'url': None if missing else url,
+            layers = None
+            if kind == 'background' and rng.random() < 0.6:
+                # a multi-layer background: the url() layer among `none` / gradient layers, each layer with its own
+                # position, size and repeat (a failing layer must leave the other layers where they are)
+                layers = self.background_layers()
+            self.images.append({'kind': kind, 'layers': layers, 'text': None if missing else text, 'url': None if missing else url,
                                 'alt': rng.choice([None, '', f'ALT{len(self.images)}']) if kind == 'img' else None,
                                 'orient': orient, 'forced': rng.choice([None, None, 'image/png', 'image/svg+xml'])
                                 if kind in ('embed', 'object') else None})
@@ -326,16 +341,58 @@ class DocGen:
             self.kinds.add('attachment-link')
         self.optimize = rng.random() < 0.25
         self.quality = rng.random() < 0.15
+        self.disk_cache = rng.random() < 0.3       # render(cache=<folder>): a DiskCache instead of a dict
+        if self.disk_cache:
+            self.kinds.add('disk-cache')
         return self
 
-    def svg_document(self, url):
-        """An SVG image whose drawing fetches: <image> elements (href relative to the SVG's URL, absolute, or missing),
+    def background_layers(self):
+        """(index of the url() layer, the other layers as CSS text, per-layer declarations)."""
+        rng = self.rng
+        n = rng.choice([2, 2, 3, 4])
+        at = rng.randrange(n)
+        others = [rng.choice(['none', 'linear-gradient(red, blue)', 'linear-gradient(to right, lime, black)',
+                              'radial-gradient(white, black)']) for _ in range(n)]
+        count = rng.choice([n, n, n, 2, 1])     # shorter lists are cycled
+        decls = ('background-position:' + ','.join(f'{1 + 2 * i}px {2 + 3 * i}px' for i in range(count)) + ';'
+                 'background-size:' + ','.join(f'{4 + i}px {3 + 2 * i}px' for i in range(count)) + ';'
+                 'background-repeat:' + ','.join(['no-repeat', 'repeat-x', 'repeat-y', 'repeat'][i % 4] for i in range(count)) + ';'
+                 'background-origin:' + ','.join(['padding-box', 'content-box', 'border-box'][i % 3] for i in range(count)) + ';'
+                 'background-clip:' + ','.join(['border-box', 'padding-box', 'content-box'][i % 3] for i in range(count)) + ';')
+        return {'at': at, 'others': others, 'decls': decls}
+
+    @staticmethod
+    def background_declaration(layers, src):
+        """`background-image` with the url() layer at its place, or `none` there when the reference is dropped."""
+        if layers is None:
+            return f"background-image:url('{src}');" if src is not None else ''
+        values = list(layers['others'])
+        values[layers['at']] = f"url('{src}')" if src is not None else 'none'
+        return f'background-image:{",".join(values)};{layers["decls"]}'
+
+    def svg_document(self, url, depth=0, inline=False):
+        """An SVG image whose drawing fetches: <image> elements (href relative to the SVG's URL, absolute, or missing;
+        a raster, or an SVG image with references of its own — itself, an SVG met before, a new one),
         <use> of another document (the fetcher is called directly) and of a local element (no fetch)."""
         rng = self.rng
         parts, items = [], []
         for _ in range(rng.choice([1, 1, 2, 3])):
             r = rng.random()
-            if r < 0.62:
+            if r < 0.2:
+                # an SVG image inside the SVG image: this very document, one generated before, or a new one
+                known = [u for u in self.svg_docs if not u.startswith(('data:', 'inline:'))]
+                which = rng.random()
+                if (which < 0.35 or depth >= 2) and not inline:
+                    inner = url
+                elif which < 0.6 and known:
+                    inner = rng.choice(known)
+                else:
+                    inner = f'http://res.test/inner{self.n}x{next(self.ids)}.svg'
+                    self.table[inner] = self.svg_document(inner, depth + 1)
+                parts.append(f'<image href="{inner}" width="5" height="5"/>')
+                items.append(('image', inner))
+                self.kinds.add('svg-in-svg')
+            elif r < 0.62:
                 text, inner = self.url('inner', rng.choice(['png', 'jpg']), base=url)
                 if inner.startswith('data:'):
                     text = inner = f'http://res.test/inner{self.n}x{next(self.ids)}.png'
@@ -357,8 +414,9 @@ class DocGen:
                 items.append(('use', target))
             else:
                 parts.append('<use href="#loc"/><g id="loc"><rect width="1" height="1"/></g>')
-        data = ('<svg xmlns="http://www.w3.org/2000/svg" xmlns:xlink="http://www.w3.org/1999/xlink" width="12" height="9">'
-                + ''.join(parts) + '</svg>').encode()
+        opening = ('<svg width="12" height="9">' if inline else
+                   '<svg xmlns="http://www.w3.org/2000/svg" xmlns:xlink="http://www.w3.org/1999/xlink" width="12" height="9">')
+        data = (opening + ''.join(parts) + '</svg>').encode()
         content = R.Content(7000 + next(_counter), 'svgdoc', data)
         content.xml_ok, content.pil, content.woff, content.woff_ok, content.font_ok = True, None, False, True, False
         self.svg_docs[url] = (content, items)
@@ -393,7 +451,9 @@ class DocGen:
             src = None if drop else ref['text']
             orient = {'from-image': '', 'none': 'image-orientation:none;'}.get(ref['orient'], 'image-orientation:90deg;')
             kind = ref['kind']
-            if kind == 'img':
+            if kind == 'inlinesvg':
+                inner = ref['svg'].data.decode()
+            elif kind == 'img':
                 attrs = (f' src="{src}"' if src is not None else '') + (f' alt="{ref["alt"]}"' if ref['alt'] is not None else '')
                 inner = f'<img{attrs} style="{orient}">'
             elif kind == 'embed':
@@ -403,8 +463,8 @@ class DocGen:
                 attrs = (f' data="{src}"' if src is not None else '') + (f' type="{ref["forced"]}"' if ref['forced'] else '')
                 inner = f'<object{attrs} style="{orient}">FB{i}</object>'
             elif kind == 'background':
-                decl = f'background-image:url(\'{src}\');' if src is not None else ''
-                inner = f'<div id=bg{i} style="{decl}{orient}width:30px;height:10px"></div>'
+                decl = self.background_declaration(ref.get('layers'), src)
+                inner = f'<div id=bg{i} style="{decl}{orient}padding:1px;border:1px solid;width:30px;height:10px"></div>'
             elif kind == 'borderimage':
                 decl = f'border-image-source:url(\'{src}\');' if src is not None else ''
                 inner = f'<div id=bg{i} style="border:2px solid;{decl}width:30px;height:10px"></div>'
@@ -442,14 +502,15 @@ class DocGen:
                 styles.append(['el', True, 'none', 'none', enc('stylesheet'), enc(style['text']), enc(style['url']), [],
                                self.sheet_wire(style['sheet'])])
         ordered = [r for r in self.images if r['kind'] not in LATE] + [r for r in self.images if r['kind'] in LATE]
-        images = [[{'liststyle': 'liststyle'}.get(r['kind'], r['kind']), enc(r['url']), enc(r['alt']),
+        images = [['inlinesvg', r['svg'].id] if r['kind'] == 'inlinesvg' else
+                  [{'liststyle': 'liststyle'}.get(r['kind'], r['kind']), enc(r['url']), enc(r['alt']),
                    r['orient'] if isinstance(r['orient'], str) else list(r['orient']), enc(r['forced'])] for r in ordered]
         fs = [[enc(path), content.id] for path, content in self.fs.items()]
         table = R.Recorder(self.table).sx()
         svgs = [[content.id, [['image', enc(u)] if k == 'image' else ['use', enc(u)] for k, u in items]]
                 for content, items in self.svg_docs.values()]
         return ['doc', enc('print'), styles, images, [enc(m['url']) for m in self.metas] + [enc(u) for u in self.api_attachments],
-                [enc(a['url']) for a in self.annots], table, [self.optimize, self.quality], fs, svgs]
+                [enc(a['url']) for a in self.annots], table, [self.optimize, 60 if self.quality else None, None], fs, svgs]
 
     def fetch_table(self, drop_failed=False):
         table = dict(self.table)
@@ -472,8 +533,6 @@ class DocGen:
 
 def category(url):
     name = url.rsplit('/', 1)[-1] if not url.startswith('data:') else url.split('n=', 1)[-1]
-    if url == 'None':
-        return 'paint'        # svg <image> without href: get_image_from_uri(url=None)
     for stem, cat in (('imp', 'css'), ('sheet', 'css'), ('font', 'css'), ('pic', 'img'), ('att', 'att'), ('lnk', 'att'),
                       ('redir', 'img'), ('inner', 'paint'), ('use', 'paint')):
         if name.startswith(stem):
@@ -481,14 +540,15 @@ def category(url):
     return 'other'
 
 
-def split_log(events):
-    """Recorder events -> {category: [events]}; a close event belongs to the call before it."""
+def split_log(events, paint_urls=()):
+    """Recorder events -> {category: [events]}; a close event belongs to the call before it.  `paint_urls`: URLs
+    referenced from inside SVG images (asked for when the SVG is drawn, whatever their name says)."""
     out = {'css': [], 'img': [], 'att': [], 'paint': [], 'other': []}
     current = 'other'
     for event in events:
         if event.startswith('call='):
-            from harness.c20_res import PLAIN  # noqa: F401
-            current = category(decode(event[5:]))
+            url = decode(event[5:])
+            current = 'paint' if url in paint_urls else category(url)
         out[current].append(event)
     return out
 
@@ -529,9 +589,34 @@ def fingerprint(document):
             text = box.text if isinstance(box, boxes.TextBox) else ''
             items.append((type(box).__name__, box.element_tag, round(box.position_x, 3), round(box.position_y, 3),
                           round(box.width, 3) if box.width != 'auto' else 'auto',
-                          round(box.height, 3) if box.height != 'auto' else 'auto', text))
+                          round(box.height, 3) if box.height != 'auto' else 'auto', text, painted(box)))
         pages.append(items)
     return pages
+
+
+def image_identity(image):
+    """What an image paints, as far as the comparison of two renderings goes."""
+    if image is None:
+        return None
+    return (type(image).__name__, getattr(image, 'id', None), getattr(image, 'width', None), getattr(image, 'height', None))
+
+
+def rounded(value):
+    if isinstance(value, (int, float)):
+        return round(value, 3)
+    if isinstance(value, (tuple, list)):
+        return tuple(rounded(v) for v in value)
+    return str(value)
+
+
+def painted(box):
+    """Backgrounds (every layer: image, size, position, repeat, areas) and border image of a box."""
+    background = getattr(box, 'background', None)
+    layers = None
+    if background:
+        layers = tuple((image_identity(layer.image), rounded(layer.size), rounded(layer.position), rounded(layer.repeat),
+                        rounded(layer.painting_area), rounded(layer.positioning_area)) for layer in background.layers)
+    return layers, image_identity(getattr(box, 'border_image', None))
 
 
 def ref_boxes(document, gen):
@@ -555,8 +640,9 @@ def ref_boxes(document, gen):
             shown = ['replaced'] if (box is not None and getattr(box, 'border_image', None) is not None) else []
         elif kind == 'background':
             box = by_id.get(f'bg{i}')
+            from weasyprint.images import RasterImage, SVGImage
             layers = box.background.layers if (box is not None and box.background) else []
-            shown = ['replaced'] if any(layer.image is not None for layer in layers) else []
+            shown = ['replaced'] if any(isinstance(layer.image, (RasterImage, SVGImage)) for layer in layers) else []
         elif kind == 'img':
             shown = ['replaced'] if replaced else ([f'alt={enc(texts)}'] if texts else [])
         elif kind == 'embed':
@@ -591,8 +677,10 @@ def pdf_attachments(pdf):
     names = pdf.catalog.get('Names')
     if names and 'EmbeddedFiles' in names:
         tree = pdf.objects[int(names['EmbeddedFiles'].split()[0])]
-        for reference in list(tree['Names'])[1::2]:
-            embedded.append(attachment_id(pdf, pdf.objects[int(reference.split()[0])], by_md5))
+        # the name tree is sorted by file name (pdf/__init__.py generate_pdf); the object numbers give back the order in
+        # which write_pdf_attachment embedded the files, which is what the model lists
+        for number in sorted(int(reference.split()[0]) for reference in list(tree['Names'])[1::2]):
+            embedded.append(attachment_id(pdf, pdf.objects[number], by_md5))
     for page_reference in pdf.page_references:
         page = pdf.objects[int(page_reference.split()[0])]
         for reference in page.get('Annots', []):
@@ -613,16 +701,16 @@ def run_real(gen, drop_failed=False, watch=True):
     """Render and write the document; -> dict of observables."""
     recorder = R.Recorder(gen.fetch_table(drop_failed))
     recorder.check_named = True
-    if any(kind == 'image' and url is None for _, items in gen.svg_docs.values() for kind, url in items):
-        recorder.extra_named = ['None']       # known finding svg-image-without-href
     obs = {'render': 'ok', 'write': 'ok', 'fingerprint': None, 'boxes': [], 'rules': [], 'embedded': [], 'annots': [],
            'opens': [], 'net': [], 'installed': 0}
     fonts_before = app_font_count()
     holder = {}
+    cache_folder = tempfile.mkdtemp(prefix='c20-diskcache-') if gen.disk_cache else None     # outside gen.tmp: not a named file
     with R.Audit.watch() as events, R.time_limit(CASE_SECONDS):
         try:
             document = docs.html(gen.html(drop_failed), base_url=gen.base, url_fetcher=recorder).render(
-                optimize_images=gen.optimize, jpeg_quality=60 if gen.quality else None)
+                optimize_images=gen.optimize, jpeg_quality=60 if gen.quality else None,
+                cache=(Path(cache_folder) / 'c') if cache_folder else None)
         except Exception as exc:  # noqa: BLE001
             document = None
             obs['render'] = obs['write'] = f'err:{type(exc).__name__}'
@@ -638,11 +726,15 @@ def run_real(gen, drop_failed=False, watch=True):
                 obs['embedded'], obs['annots'] = pdf_attachments(holder['pdf'])
             except Exception as exc:  # noqa: BLE001
                 obs['write'] = f'err:{type(exc).__name__}'
+    if cache_folder:
+        document = None
+        shutil.rmtree(cache_folder, ignore_errors=True)
     prefix = str(gen.tmp)
     obs['opens'] = sorted({path for kind, path in events if kind == 'open' and path.startswith(prefix)})
     obs['net'] = [detail for kind, detail in events if kind == 'net']
     obs['log_render'] = split_log(recorder.events[:n_render])
-    obs['log_write'] = split_log(recorder.events[n_render:])
+    obs['log_write'] = split_log(recorder.events[n_render:],
+                                 {u for _, items in gen.svg_docs.values() for _, u in items if u})
     obs['events'] = list(recorder.events)
     return obs
 
@@ -697,6 +789,8 @@ def section(run):
                     'svg_only_escapes': svg_only_escapes(gen)}
             if plain:
                 meta['replay'] = payload(gen, '')['input']
+            elif 'absent=DIFF' in out:
+                meta['absent'] = absent_payload(gen)
             sec.add(line, out, meta=meta, nontrivial=nontrivial, tags=sorted(gen.kinds) + outcome + (['plain'] if plain else []))
         sec.flush()
     finally:
@@ -710,9 +804,16 @@ def section(run):
 # the complete matrix: every resource kind x every failure kind, one document each
 
 MATRIX_KINDS = ['link', 'import', 'font', 'img', 'embed', 'object', 'background', 'borderimage', 'liststyle', 'content',
-                'meta', 'annot', 'api', 'svgimage', 'svguse']
+                'meta', 'annot', 'api', 'svgimage', 'svguse', 'inlinesvgimage']
 MATRIX_MODES = ['ok', 'raises', 'empty', 'truncated', 'wrongtype', 'html', 'wrongmime', 'readerror', 'notdict', 'closewarn',
                 'truncated-open']
+
+
+# regression cells for repaired findings (one document each, same observables)
+REGRESSION_CELLS = [('svgnohref', 'ok'), ('svgself', 'ok'),
+                    # the same image three times (img, img, background) with the `cache` option given as a folder
+                    ('imgthrice-diskcache', 'ok'), ('imgthrice-diskcache', 'raises'), ('imgthrice-diskcache', 'html'),
+                    ('imgthrice-diskcache', 'truncated')]
 
 
 def matrix_spec(family, mode):
@@ -780,8 +881,30 @@ def matrix_document(rng, tmp, kind, mode):
     elif kind in ('img', 'embed', 'object', 'background', 'borderimage', 'liststyle', 'content'):
         url = f'http://res.test/pic{n}.png'
         gen.table[url] = matrix_spec('image', mode)
-        gen.images.append({'kind': kind, 'text': url, 'url': url, 'alt': 'ALT0' if kind == 'img' else None,
+        layers = None
+        if kind == 'background':
+            # the url() layer first, a gradient layer after it, each with its own position / size / repeat
+            layers = {'at': 0, 'others': ['none', 'linear-gradient(red, blue)'],
+                      'decls': 'background-position:1px 2px,3px 5px;background-size:4px 3px,5px 5px;'
+                               'background-repeat:no-repeat,repeat-x;'}
+        gen.images.append({'kind': kind, 'layers': layers, 'text': url, 'url': url, 'alt': 'ALT0' if kind == 'img' else None,
                            'orient': 'from-image', 'forced': None})
+    elif kind == 'inlinesvgimage':
+        inner = f'http://res.test/inner{n}.png'
+        gen.table[inner] = matrix_spec('image', mode)
+        data = f'<svg width="12" height="9"><image href="{inner}" width="5" height="5"/></svg>'.encode()
+        content = R.Content(7000 + next(_counter), 'svgdoc', data)
+        content.xml_ok, content.pil, content.woff, content.woff_ok, content.font_ok = True, None, False, True, False
+        gen.svg_docs[f'inline:{n}'] = (content, [('image', inner)])
+        gen.images.append({'kind': 'inlinesvg', 'layers': None, 'text': None, 'url': None, 'alt': None, 'orient': 'from-image',
+                           'forced': None, 'svg': content})
+    elif kind == 'imgthrice-diskcache':
+        url = f'http://res.test/pic{n}.png'
+        gen.table[url] = matrix_spec('image', mode)
+        for which in ('img', 'img', 'background'):
+            gen.images.append({'kind': which, 'layers': None, 'text': url, 'url': url, 'alt': 'ALT0' if which == 'img' else None,
+                               'orient': 'from-image', 'forced': None})
+        gen.disk_cache = True
     elif kind in ('meta', 'annot', 'api'):
         url = f'http://res.test/{"lnk" if kind == "annot" else "att"}{n}.bin'
         gen.table[url] = matrix_spec('file', mode)
@@ -797,6 +920,13 @@ def matrix_document(rng, tmp, kind, mode):
             inner = f'http://res.test/inner{n}.png'
             gen.table[inner] = matrix_spec('image', mode)
             body, items = f'<image href="{inner}" width="5" height="5"/>', [('image', inner)]
+        elif kind == 'svgnohref':
+            # regression, repaired finding svg-image-without-href: nothing is fetched for an <image> without href
+            body, items = '<image width="5" height="5"/><image href="" width="5" height="5"/>', [('image', None), ('image', None)]
+        elif kind == 'svgself':
+            # regression, repaired finding svg-self-reference-hang: the cache hands back the SVGImage being drawn
+            body = f'<image href="pic{n}.svg" width="5" height="5"/>' * 3
+            items = [('image', url)] * 3
         else:
             inner = f'http://res.test/use{n}.svg#a'
             spec = matrix_spec('image', mode)
@@ -823,17 +953,20 @@ def matrix_section(run):
     tmp = Path(tempfile.mkdtemp(prefix='c20-matrix-'))
     cells = {}
     try:
-        for kind in MATRIX_KINDS:
-            for mode in MATRIX_MODES:
-                gen = matrix_document(run.rng, tmp, kind, mode)
-                line, out, _ = one_document(gen)
-                cell = ('completes' if ' write=ok' in out else 'escapes') + ('/absent-eq' if 'absent=eq' in out else '')
-                cells[f'{kind}/{mode}'] = cell
-                plain = is_plain(gen)
-                meta = {'base': gen.base, 'kinds': sorted(gen.kinds), 'plain': plain, 'html': gen.html()}
-                if plain:
-                    meta['replay'] = payload(gen, '')['input']
-                sec.add(line, out, meta=meta, nontrivial=mode != 'ok', tags=[f'kind:{kind}', f'mode:{mode}', cell])
+        for kind, mode in [(k, m) for k in MATRIX_KINDS for m in MATRIX_MODES] + REGRESSION_CELLS:
+            gen = matrix_document(run.rng, tmp, kind, mode)
+            line, out, _ = one_document(gen)
+            cell = ('completes' if ' write=ok' in out else 'escapes') + ('/absent-eq' if 'absent=eq' in out else '')
+            cells[f'{kind}/{mode}'] = cell
+            plain = is_plain(gen)
+            meta = {'base': gen.base, 'kinds': sorted(gen.kinds), 'plain': plain, 'html': gen.html()}
+            if plain:
+                meta['replay'] = payload(gen, '')['input']
+            elif 'absent=DIFF' in out:
+                meta['absent'] = absent_payload(gen)
+            regression = (kind, mode) in REGRESSION_CELLS
+            sec.add(line, out, meta=meta, nontrivial=mode != 'ok' or regression,
+                    tags=[f'kind:{kind}', f'mode:{mode}', cell] + (['regression-of-repaired-finding'] if regression else []))
     finally:
         shutil.rmtree(tmp, ignore_errors=True)
     run.extra['failure_matrix'] = cells
@@ -974,8 +1107,6 @@ def is_plain(gen):
             return False
     for _, items in gen.svg_docs.values():
         for kind, url in items:
-            if kind == 'image' and url is None:
-                return False        # known finding svg-image-without-href
             if kind == 'use' and gen.table[url].kind == 'resp' and gen.table[url].file_obj is not None:
                 return False        # known finding svg-use-bypasses-fetch (the file object is never closed)
     return True
@@ -1055,6 +1186,39 @@ def payload(gen, what):
                                     'options': {'optimize_images': gen.optimize, 'jpeg_quality': 60 if gen.quality else None,
                                                 'attachments': gen.api_list()}},
             'signature': 'doc:' + what[:60]}
+
+
+def absent_payload(gen):
+    """What is needed to render a document and the document without its failed references again (replay files)."""
+    return {'html': gen.html(), 'absent_html': gen.html(True), 'base': gen.base,
+            'table': {u: s.json() for u, s in gen.fetch_table().items()},
+            'absent_table': {u: s.json() for u, s in gen.fetch_table(True).items()},
+            'options': {'optimize_images': gen.optimize, 'jpeg_quality': 60 if gen.quality else None},
+            'attachments': gen.api_list(), 'absent_attachments': gen.api_list(True)}
+
+
+def absent_check(inp):
+    """Render and write both variants again; -> what differs, or None."""
+    docs.quiet()
+    results = []
+    for html, table, attachments in ((inp['html'], inp['table'], inp['attachments']),
+                                     (inp['absent_html'], inp['absent_table'], inp['absent_attachments'])):
+        recorder = R.Recorder({u: Spec.from_json(s) for u, s in table.items()})
+        holder = {}
+        try:
+            with R.time_limit(CASE_SECONDS):
+                document = docs.html(html, base_url=inp['base'], url_fetcher=recorder).render(**inp['options'])
+                document.write_pdf(finisher=lambda doc, pdf: holder.setdefault('pdf', pdf), uncompressed_pdf=True,
+                                   attachments=attachments or None)
+        except Exception as exc:  # noqa: BLE001
+            results.append(f'err:{type(exc).__name__}')
+            continue
+        results.append((fingerprint(document), pdf_attachments(holder['pdf'])))
+    if isinstance(results[0], str) or isinstance(results[1], str):
+        return None      # this input no longer reaches the comparison
+    if results[0] != results[1]:
+        return 'the result differs from the result of the document without the failed references'
+    return None
 
 
 def search(run, failures):
@@ -1141,6 +1305,13 @@ def fixed_probes(tmp):
             f'</style></head><body><p>text</p></body></html>')
     cases.append(('font-data-then-local', html, {base + 'f.otf': html_instead},
                   {'urls': {base + 'f.otf'}, 'must_fetch': [base + 'f.otf']}))
+    for name, probe in REGRESSION_PROBES.items():
+        try:
+            failing = probe()
+        except Exception as exc:  # noqa: BLE001
+            failing = f'{type(exc).__name__}: {exc}'
+        what = f'{name}: the input of this repaired finding fails again ({probe.__doc__.split(":")[0].strip()})' if failing else None
+        yield what, ({'what': what, 'signature': f'regression:{name}', 'input': {'kind': 'regression', 'id': name}} if what else None)
     for name, html, table, expect in cases:
         what = oracle(html, base, table, str(tmp), expect)
         item = None
@@ -1157,6 +1328,8 @@ def fixed_probes(tmp):
 def replay(data):
     docs.quiet()
     inp = data.get('input', {})
+    if inp.get('kind') == 'regression':
+        return 'the input of the repaired finding fails again' if REGRESSION_PROBES[inp['id']]() else None
     if inp.get('kind') == 'document':
         table = {u: Spec.from_json(s) for u, s in inp['table'].items()}
         expect = dict(inp['expect'])
@@ -1216,7 +1389,7 @@ def finding_xml_image():
 
 
 def finding_svg_none():
-    """<svg><image/></svg>: the caller's fetcher is called with None."""
+    """<svg><image/></svg>: the caller's fetcher is called with None (repaired by 799e002; kept as a regression probe)."""
     calls = []
 
     def fetcher(url):
@@ -1256,8 +1429,9 @@ def finding_svg_use():
 
 
 def finding_svg_self_reference():
-    """An SVG image with two <image> elements pointing at itself: each level of the recursion ends with a RecursionError
-    swallowed by SVGImage.draw, and the drawing goes on with the next element: exponential time."""
+    """An SVG image with two <image> elements pointing at itself: each level of the recursion ended with a RecursionError
+    swallowed by SVGImage.draw, and the drawing went on with the next element: exponential time (repaired by 9598d29;
+    kept as a regression probe)."""
     svg = ('<svg xmlns="http://www.w3.org/2000/svg" width="20" height="20">'
            + '<image href="a.svg" width="9" height="9"/>' * 2 + '</svg>').encode()
     try:
@@ -1280,6 +1454,21 @@ def finding_import_cycle():
 def finding_replays():
     docs.quiet()
     return {'lazy-local-image-reread': finding_lazy_local, 'read-error-not-funnelled': finding_read_error,
-            'xml-accepted-as-image': finding_xml_image, 'svg-image-without-href': finding_svg_none,
-            'svg-use-bypasses-fetch': finding_svg_use, 'import-cycle-recursion': finding_import_cycle,
-            'svg-self-reference-hang': finding_svg_self_reference}
+            'xml-accepted-as-image': finding_xml_image,
+            'svg-use-bypasses-fetch': finding_svg_use, 'import-cycle-recursion': finding_import_cycle}
+
+
+def finding_unwritable_image():
+    """A CMYK TIFF served for an <img>: Pillow opens it and cannot write it as PNG (repaired by d7dc388)."""
+    from weasyprint.formatting_structure import boxes
+    data = R.bank()['tiff_cmyk'].data
+    try:
+        document, _ = _render('<img src="http://x.test/a.tif" alt="ALT">', lambda url: {'string': data, 'mime_type': 'image/tiff'})
+    except Exception:  # noqa: BLE001
+        return True
+    return not any(isinstance(b, boxes.TextBox) and b.text == 'ALT' for b in walk(document.pages[0]._page_box))
+
+
+# repaired findings: the committed inputs, run by `fixed_probes` (a `fixed:` entry suppresses nothing)
+REGRESSION_PROBES = {'svg-image-without-href': finding_svg_none, 'svg-self-reference-hang': finding_svg_self_reference,
+                     'raster-reencode-error-escapes': finding_unwritable_image}
